@@ -13,7 +13,7 @@ import (
 )
 
 func init() {
-	register(&Rule{ID: "R-rebuild-delimiters", Floor: 16, Run: ruleR4pRebuildDelims,
+	register(&Rule{ID: "R-rebuild-delimiters", Floor: 40, Run: ruleR4pRebuildDelims,
 		Doc: "The analysed tree is handed on as TEXT (String()), and the printers never add parentheses by precedence: the only thing that keeps a child one operand of its context is the delimiter pair its parent's printer puts around it " +
 			"(R-print-delimiters computes, per printer and child field, the bracket context `(…)`, `[…]`, `{…}`). For every rebuilding function / dispatch clause of optimizer and fuzzer whose input node kind prints a child inside such delimiters " +
 			"(grouped expression, list literal, call arguments, index, object literal, match arms, block): every output — every single alternative of a producer of alternatives, the returned value of a one-to-one rebuild — " +
@@ -24,12 +24,14 @@ func init() {
 }
 
 type r4pDelimRec struct {
+	framed         bool // the child prints its own delimiters (a block)
 	key, pos, desc string
 	npaths         int
 	viol           string
 }
 
 type r4pDelims struct {
+	pkgs  []string // packages whose rebuild units are analysed
 	ctor  map[*types.Func]map[int]bool
 	c     *Ctx
 	print *r2pPrintResult
@@ -69,8 +71,18 @@ func (dl *r4pDelims) begin(rb *r2pRebuild, u *r2pRebuildUnit) {
 		if !ok {
 			continue
 		}
+		// a child that is a framed component itself (a block prints its own braces) carries its delimiters wherever it
+		// goes as a whole (a projection such as thenBranch(node) -> block loses nothing): only its PARTS must not get out
+		framed := false
+		if cs, _ := rb.childFields(f.Var.Type()); cs != nil {
+			if _, isSlice := types.Unalias(f.Var.Type()).Underlying().(*types.Slice); !isSlice {
+				if ci := dl.print.infos[cs]; ci != nil && ci.frameOpen != "" {
+					framed = true
+				}
+			}
+		}
 		key := strings.TrimSuffix(u.key, "|every child reaches the output") + "|" + s.Short() + "." + f.Name + " keeps its delimiters in every output"
-		rec := &r4pDelimRec{key: key, pos: rb.c.Pos(u.pos), desc: fmt.Sprintf("%s.String() prints %s inside %s", s.Short(), f.Name, sig)}
+		rec := &r4pDelimRec{key: key, pos: rb.c.Pos(u.pos), framed: framed, desc: fmt.Sprintf("%s.String() prints %s inside %s", s.Short(), f.Name, sig)}
 		dl.cur[u][u.root+"."+f.Name] = rec
 		dl.recs[key] = rec
 	}
@@ -79,6 +91,11 @@ func (dl *r4pDelims) begin(rb *r2pRebuild, u *r2pRebuildUnit) {
 // bareAtoms: the parts of the input that the value of x holds outside any delimiting position.
 func (dl *r4pDelims) bareAtoms(rb *r2pRebuild, st *r2pState, x ast.Expr) r2pAtoms {
 	x = ast.Unparen(x)
+	if t := rb.info.TypeOf(x); t != nil {
+		if _, isTuple := t.(*types.Tuple); !isTuple && !rb.nodeCarrying(t) {
+			return nil // a span, a resolved type, a flag: no code of the input
+		}
+	}
 	if p := rb.pathOf(st, x); p != "" {
 		return r2pAtoms{p: true}
 	}
@@ -157,7 +174,7 @@ func (dl *r4pDelims) bareChildren(rb *r2pRebuild, st *r2pState, x ast.Expr) []st
 			continue
 		}
 		for a := range b {
-			if a == p || strings.HasPrefix(a, p+".") {
+			if (a == p && !cur[p].framed) || strings.HasPrefix(a, p+".") {
 				out = append(out, p)
 				break
 			}
@@ -176,7 +193,8 @@ func (dl *r4pDelims) note(u *r2pRebuildUnit, paths []string, what, trace string)
 }
 
 func ruleR4pRebuildDelims(c *Ctx) []Obligation {
-	dl := &r4pDelims{ctor: map[*types.Func]map[int]bool{}, c: c, print: r2pPrintRun(c), recs: map[string]*r4pDelimRec{}, cur: map[*r2pRebuildUnit]map[string]*r4pDelimRec{}}
+	// the analyzer is the first rebuilder of the tool chain: parser node -> analysed node
+	dl := &r4pDelims{pkgs: []string{"homescript/analyzer", "homescript/optimizer", "homescript/fuzzer"}, ctor: map[*types.Func]map[int]bool{}, c: c, print: r2pPrintRun(c), recs: map[string]*r4pDelimRec{}, cur: map[*r2pRebuildUnit]map[string]*r4pDelimRec{}}
 	r2pRebuildAll(c, nil, dl)
 	var keys []string
 	for k := range dl.recs {
